@@ -377,6 +377,10 @@ class FakeSocket:
             db1 = self._server.dbs[index1]
             db2 = self._server.dbs[index2]
             db1.swap(db2)
+            # Every key present in either database may now differ in both
+            for key in set(db1) | set(db2):
+                db1.notify_watch(key)
+                db2.notify_watch(key)
         return OK
 
     # Key commands
